@@ -226,8 +226,28 @@ def platonic_rules(rep, prog):
             faces, verts, log = build_mesh_cp(prog, body, name)
             if name == "Box":
                 # a second, generic box: orientation, closedness and unit normals must not depend on the corner values
-                f2, v2, _l2 = build_mesh_cp(prog, body, name, box=((-1.0, -2.5, -3.0), (2.0, 5.0, 7.5)))
+                lo_, hi_ = (-1.0, -2.5, -3.0), (2.0, 5.0, 7.5)
+                f2, v2, _l2 = build_mesh_cp(prog, body, name, box=(lo_, hi_))
                 mesh_rules(rep, "Box[generic corners]", f2, v2, body.where(), cfg)
+                # extents ("vertices lie on the intended surface"): every vertex is a corner of the box it was asked for, all eight corners
+                # occur, and a vertex sits on the side of the box its normal points out of (three different extents: a mixed-up axis shows)
+                off = [(i, v[0]) for i, v in enumerate(v2) if any(min(abs(v[0][k] - lo_[k]), abs(v[0][k] - hi_[k])) > 1e-5 for k in range(3))]
+                corners = {tuple(round(x, 4) for x in v[0]) for v in v2}
+                side = []
+                for i, v in enumerate(v2):
+                    ax = max(range(3), key=lambda k: abs(v[1][k]))
+                    want = hi_[ax] if v[1][ax] > 0 else lo_[ax]
+                    if abs(v[0][ax] - want) > 1e-5:
+                        side.append((i, ax))
+                ok_ext = not off and len(corners) == 8 and not side
+                rep.inst("C15.T2", "Box with corners %s / %s: every vertex is a corner of that box, all 8 corners occur, each vertex lies on the side its normal faces: %s"
+                         % (lo_, hi_, ok_ext), config=cfg)
+                if off:
+                    rep.violate("C15.T2", "T2|Box|extents", body.where(), "Box %s..%s: vertex %d is at %s, which is not a corner of the box (%d such vertices)"
+                                % (lo_, hi_, off[0][0], [round(x, 4) for x in off[0][1]], len(off)), config=cfg)
+                elif len(corners) != 8 or side:
+                    rep.violate("C15.T2", "T2|Box|extents", body.where(), "Box %s..%s: %d distinct corners occur (8 expected)%s" % (
+                        lo_, hi_, len(corners), "; vertex %d does not lie on the side its normal faces (axis %d)" % side[0] if side else ""), config=cfg)
         except A.Panic as e:
             rep.violate("C15.T2", "T2|%s|panics" % name, body.where(), "%s::build() panics on its own tables (%s)" % (name, e), config=cfg)
             continue
